@@ -24,7 +24,7 @@ from ..translate import blocks, ir
 
 THEOREMS = ["twosum", "fast_twosum", "twosum_fix_overflow", "fast2sum_fix_overflow", "ties_add_2sum",
             "twosum_generated", "fast2sum_generated", "twosum_fix_generated", "fast2sum_fix_generated", "generated_wf",
-            "twosum_bit_exact", "twosum_bit_exact_any_format", "fast2sum_bit_exact_any_format", "soft_ops_correctly_rounded"]
+            "twosum_bit_exact", "twosum_bit_exact_any_format", "fast2sum_bit_exact_any_format", "soft_ops_correctly_rounded", "soft_div_correctly_rounded"]
 SEARCHED = ["Veltkamp splitter x = xh + xl and half-significand bit bounds (all variants, scale on/off)",
             "Dekker product h + l = x*y (all variants)", "fix_overflow fallbacks", "float64/float32/float16 machine arithmetic = round-to-nearest (Soft vs NumPy)"]
 TRUSTED = [
